@@ -185,8 +185,9 @@ Definition s_iirmap (ini : cb1) (step : cb3) (s : strm) : strm :=
   | SCons x r => sbind (ini x) (fun o => SCons o (s_iir_from step x o r))
   end.
 
-(* iterator.FirstN: k = n - i; the loop returns when i == n, BEFORE looking at the pair's error;
-   a negative n is never reached *)
+(* firstN of List.Top (value/list.go): nothing for n == 0, otherwise the loop returns right after the
+   n-th yield; k = n - i; a negative n is never reached.  (iterator.FirstN, used before, read one pair
+   ahead and dropped it: the same stream.) *)
 Fixpoint s_top (k : Z) (s : strm) : strm :=
   if k =? 0 then SEnd else
   match s with
